@@ -76,7 +76,7 @@ def main():
 
         def one(data):
             fdp = atheris.FuzzedDataProvider(data)
-            d = {"style": tm.STYLES[fdp.ConsumeIntInRange(0, 2)], "sep": tm.SEPS[fdp.ConsumeIntInRange(0, 2)],
+            d = {"style": tm.STYLES[fdp.ConsumeIntInRange(0, 3)], "sep": tm.SEPS[fdp.ConsumeIntInRange(0, 2)],
                  "trailing": fdp.ConsumeBool(), "repeated": fdp.ConsumeBool()}
             attrs = []
             used = set()
